@@ -291,6 +291,11 @@ type vmOfferEnv struct {
 	talkFails    bool
 	talkResp     []byte
 	talkRequests int
+	// an offer admitted while the receive task of an earlier one is blocked in its next accept
+	concurrentTaker  func() (Permit, bool)
+	concurrentTook   bool
+	concurrentPermit Permit
+	concurrentOK     bool
 }
 
 var vmEnv *vmOfferEnv
@@ -317,6 +322,11 @@ func vmCidWithAddr(z *UtpTransportService, dst *enode.Node, addr *net.UDPAddr, i
 // vmAcceptWithCid: the announced connection is taken up at most once.
 func vmAcceptWithCid(z *UtpTransportService, ctx context.Context, cid *utp.ConnectionId) (*utp.UtpStream, error) {
 	vmEnv.acceptCalls++
+	if vmEnv.acceptCalls > 1 && vmEnv.concurrentTaker != nil && !vmEnv.concurrentTook {
+		// while this task waits for a further connection, another offer is admitted
+		vmEnv.concurrentTook = true
+		vmEnv.concurrentPermit, vmEnv.concurrentOK = vmEnv.concurrentTaker()
+	}
 	if vmEnv.acceptCalls > 1 || vmEnv.acceptFails {
 		return nil, vmErrLoad
 	}
